@@ -91,7 +91,7 @@ PATT_BROKEN_STRING = re.compile(r"""
     (?:"                               # opening double quote
         (?: [^"\\\n\r\u2028\u2029]     # not ", \, line terminators; allow
             | \\(\n|\r(?!\n)|\u2028|\u2029|\r\n)  # line continuation
-            | \\[a-tvwyzA-TVWYZ!-\/:-@\[-`{-~] # escaped chars
+            | \\[^0-9xu\n\r\u2028\u2029]    # escaped chars
             | \\x[0-9a-fA-F]{2}        # hex_escape_sequence
             | \\u[0-9a-fA-F]{4}        # unicode_escape_sequence
             | \\(?:[1-7][0-7]{0,2}|[0-7]{2,3})  # octal_escape_sequence
@@ -103,7 +103,7 @@ PATT_BROKEN_STRING = re.compile(r"""
     (?:'                               # opening single quote
         (?: [^'\\\n\r\u2028\u2029]     # not ', \, line terminators; allow
             | \\(\n|\r(?!\n)|\u2028|\u2029|\r\n)  # line continuation
-            | \\[a-tvwyzA-TVWYZ!-\/:-@\[-`{-~] # escaped chars
+            | \\[^0-9xu\n\r\u2028\u2029]    # escaped chars
             | \\x[0-9a-fA-F]{2}        # hex_escape_sequence
             | \\u[0-9a-fA-F]{4}        # unicode_escape_sequence
             | \\(?:[1-7][0-7]{0,2}|[0-7]{2,3}) # octal_escape_sequence
@@ -631,7 +631,7 @@ class Lexer(object):
         (?:"                               # opening double quote
             (?: [^"\\\n\r\u2028\u2029]     # not ", \, line terminators; allow
                 | \\(\n|\r(?!\n)|\u2028|\u2029|\r\n)  # line continuation
-                | \\[a-tvwyzA-TVWYZ!-\/:-@\[-`{-~] # escaped chars
+                | \\[^0-9xu\n\r\u2028\u2029]    # escaped chars
                 | \\x[0-9a-fA-F]{2}        # hex_escape_sequence
                 | \\u[0-9a-fA-F]{4}        # unicode_escape_sequence
                 | \\(?:[1-7][0-7]{0,2}|[0-7]{2,3})  # octal_escape_sequence
@@ -643,7 +643,7 @@ class Lexer(object):
         (?:'                               # opening single quote
             (?: [^'\\\n\r\u2028\u2029]     # not ', \, line terminators; allow
                 | \\(\n|\r(?!\n)|\u2028|\u2029|\r\n)  # line continuation
-                | \\[a-tvwyzA-TVWYZ!-\/:-@\[-`{-~] # escaped chars
+                | \\[^0-9xu\n\r\u2028\u2029]    # escaped chars
                 | \\x[0-9a-fA-F]{2}        # hex_escape_sequence
                 | \\u[0-9a-fA-F]{4}        # unicode_escape_sequence
                 | \\(?:[1-7][0-7]{0,2}|[0-7]{2,3}) # octal_escape_sequence
